@@ -169,6 +169,8 @@ void coefficient_construct_simple_int(const lp_polynomial_context_t* ctx, coeffi
     // x^n
     coefficient_construct_rec(ctx, C, x, n+1);
     integer_assign_int(ctx->K, &COEFF(C, n)->value.num, a);
+    // a can be zero (in the ring), then the result is the constant 0
+    coefficient_normalize(ctx, C);
   }
 }
 
@@ -184,6 +186,8 @@ void coefficient_construct_simple(const lp_polynomial_context_t* ctx, coefficien
     // x^n
     coefficient_construct_rec(ctx, C, x, n+1);
     integer_assign(ctx->K, &COEFF(C, n)->value.num, a);
+    // a can be zero (in the ring), then the result is the constant 0
+    coefficient_normalize(ctx, C);
   }
 }
 
